@@ -8,7 +8,10 @@ import (
 	"encoding/json"
 	"fmt"
 	"math/big"
+	"os"
 	"strings"
+
+	"github.com/BurntSushi/toml"
 )
 
 func jsonLeaves() []any {
@@ -267,6 +270,10 @@ func checkJSON(e *env, fn string, items []any) {
 		if fn != "json" && fn != f.name {
 			continue
 		}
+		if only := os.Getenv("VERIF_C14_FORMATS"); only != "" && !strings.Contains(","+only+",", ","+f.name+",") {
+			e.r.NotExhaustive("VERIF_C14_FORMATS restricts the serialiser formats")
+			continue
+		}
 		var sel []any
 		for _, it := range items {
 			if f.domain(it) {
@@ -322,7 +329,7 @@ func checkJSON(e *env, fn string, items []any) {
 				e.show("%s | %s -> %q | %s -> %s", want, enc, text, f.dec, back)
 				if bv, ok := back.one(); !ok || canon(bv) != want {
 					sig := "roundtrip:" + f.name
-					if k := classifyRoundTrip(f.name, x, back); k != "" {
+					if k := classifyRoundTrip(f.name, x, back, text); k != "" {
 						sig = f.name + ":" + k
 						if f.name != "jq" {
 							sig = f.name + ":roundtrip:" + k
@@ -359,7 +366,7 @@ func checkJSON(e *env, fn string, items []any) {
 				e.show("%q | %s -> %s", t, f.dec, r)
 				if v, ok := r.one(); !ok || canon(v) != want {
 					sig := "ref:" + f.dec
-					if k := classifyRoundTrip(f.name, x, r); k != "" {
+					if k := classifyRoundTrip(f.name, x, r, t); k != "" {
 						sig = f.name + ":" + k
 						if f.name != "jq" {
 							sig = f.name + ":decode:" + k
@@ -385,7 +392,7 @@ func judgeEncodeError(e *env, f jsonFormat, enc string, x any, r res) {
 // classifyRoundTrip names the violation class. The known defect classes are
 // only used when the observation is exactly what that defect predicts, so any
 // other deviation on the same inputs keeps the generic (alarming) signature.
-func classifyRoundTrip(format string, x any, got res) string {
+func classifyRoundTrip(format string, x any, got res, text string) string {
 	gv, isVal := got.one()
 	switch format {
 	case "jq":
@@ -412,6 +419,24 @@ func classifyRoundTrip(format string, x any, got res) string {
 			}
 		}
 	case "yaml", "toml":
+		if format == "toml" && isVal && strings.Contains(text, `""`) {
+			// recorded class (BurntSushi/toml v1.5.0): with an empty key in the path of an array or
+			// of an inline table inside it, the array comes back as the list of its tables only.
+			// Recognised when fq returns exactly what the library decodes from the text, the text
+			// has an empty key, and the value is the input with array elements removed.
+			var lv any
+			if _, err := toml.NewDecoder(strings.NewReader(text)).Decode(&lv); err == nil {
+				xs := mapValues(x, func(v any) any {
+					if b, ok := v.(*big.Int); ok {
+						return b.String()
+					}
+					return v
+				})
+				if canon(normYAML(lv)) == canon(gv) && lostArrayElementsOnly(xs, gv) {
+					return "empty-key:array-loses-non-table-elements"
+				}
+			}
+		}
 		if isVal && contains(x, isBig) {
 			pred := mapValues(x, func(v any) any {
 				if b, ok := v.(*big.Int); ok {
@@ -435,6 +460,64 @@ func classifyRoundTrip(format string, x any, got res) string {
 		}
 	}
 	return ""
+}
+
+// lostArrayElementsOnly: got equals want except that arrays may have lost
+// elements (or were replaced by the tables found in their nested arrays).
+func lostArrayElementsOnly(want, got any) bool {
+	got = unwrap(got)
+	switch w := want.(type) {
+	case map[string]any:
+		g, ok := got.(map[string]any)
+		if !ok || len(g) != len(w) {
+			return false
+		}
+		for k, c := range w {
+			gc, ok := g[k]
+			if !ok || !lostArrayElementsOnly(c, gc) {
+				return false
+			}
+		}
+		return true
+	case []any:
+		g, ok := got.([]any)
+		if !ok {
+			return false
+		}
+		// flatten nested arrays of want: the survivors are tables in document order
+		var flat []any
+		var fl func(v []any)
+		fl = func(v []any) {
+			for _, c := range v {
+				if l, ok := c.([]any); ok {
+					fl(l)
+				} else {
+					flat = append(flat, c)
+				}
+			}
+		}
+		fl(w)
+		if canon(w) == canon(g) {
+			return true
+		}
+		i := 0
+		for _, gc := range g {
+			found := false
+			for i < len(flat) {
+				c := flat[i]
+				i++
+				if _, isTab := c.(map[string]any); isTab && lostArrayElementsOnly(c, gc) {
+					found = true
+					break
+				}
+			}
+			if !found {
+				return false
+			}
+		}
+		return true
+	}
+	return canon(want) == canon(got)
 }
 
 var _ = json.Marshal
